@@ -146,7 +146,26 @@ pub fn decide(tape: &[u16], depth: usize, budget: isize) -> Result<(Decided, gen
 			// that takes the top-level arguments is a different program (its result is the inner function)
 			let body_is_function = matches!(model::run_expr(&ast::std_call("type", vec![base.clone()]), &Interp::new(400_000)), MOut::Val(v) if v == "\"function\"");
 			if !body_is_function {
-				check(if as_str { "tla-str" } else { "tla-code" }, &code, &Opts { tla: ext, ..Opts::default() }, &m);
+				check(if as_str { "tla-str" } else { "tla-code" }, &code, &Opts { tla: ext.clone(), ..Opts::default() }, &m);
+				// only the first argument is passed; the others take a default that reads the passed one
+				if p.ext.len() >= 2 {
+					let first = p.ext[0].0.clone();
+					let params = p
+						.ext
+						.iter()
+						.enumerate()
+						.map(|(i, (n, _, l))| ast::Param {
+							name: n.clone(),
+							default: (i > 0).then(|| {
+								let probe = Ex::Bin(ast::BinOp::Eq, bx(ast::std_call("type", vec![ast::var(&first)])), bx(ast::s("")));
+								Ex::If(bx(probe), bx(Ex::Null), Some(bx(l.clone())))
+							}),
+						})
+						.collect();
+					let code = ast::print_eval(&Ex::Func(params, bx(p.body.clone())));
+					let label = if as_str { "tla-str-defaults" } else { "tla-code-defaults" };
+					check(label, &code, &Opts { tla: ext[..1].to_vec(), ..Opts::default() }, &m);
+				}
 			}
 		}
 	}
